@@ -180,7 +180,20 @@ def c04_order(v, tier, wd, rng):
     for x in res.get("viol", []):
         v.violation("C04: " + x["what"].split(" number")[0] + " before all commitments were received",
                     {"kind": "engine-job", "job": jb[x["run"]], "party": x["p"]}, f"run {x['run']}: party {x['p']}: {x['what']}")
-    return {"commit_before_reveal": {"mc_sched_states_all_interleavings": states, "real_runs_under_adversarial_schedulers": len(jobs),
+    # C04(c): challenges vs. the data under check, on honest runs with several aBit calls
+    cjobs = []
+    for n in (2, 3) if q else (2, 3, 4):
+        for k in range(2 if q else 6):
+            c = ej.and_chain(n, 4 + k)
+            cjobs.append(ej.job(f"coins.n{n}.{k}", c, ej.rand_inputs(rng, c), k % n, [0], cap=1, pol=ej.policy(rng, n),
+                                probes=True, predict=True))
+    cout = vlib.run_pt("engine", cjobs, wd, name="coins")
+    cres = vlib.tlc_trace("Mon_C04c", vlib.MON_CFG, cout, wd, name="mon4c", depth_first=False)
+    cjb = {j["id"]: j for j in cjobs}
+    for x in cres.get("viol", []):
+        v.violation("C04: " + x["what"], {"kind": "engine-job", "job": cjb[x["run"]]}, f"run {x['run']}: {x['what']}")
+    return {"challenge_after_data": {"honest_runs": len(cjobs), "challenge_values_compared_with_predictions": cres["checked"]},
+            "commit_before_reveal": {"mc_sched_states_all_interleavings": states, "real_runs_under_adversarial_schedulers": len(jobs),
                                      "reveal_sends_checked": res["checked"]}}
 
 
